@@ -180,6 +180,11 @@ package lang
 //@   loop 1 step imp(exitNum > 0, i == old(i)+1)
 //@   loop 1 step imp(exitNum > 0 && i < len(*procs) && (old(i)+1 == len(*procs) || !(*procs)[old(i)+1].IsMethod), (*procs)[i].OperatorLogicOr)
 //@   loop 1 step i > old(i)
+// T6 a pipeline member that is not the last of its pipeline is never checked: it is started, nothing is
+//    skipped and nothing is decided on a stale exit number; T7 the block is only ever ended (loop 3) behind
+//    the LAST command of a pipeline
+//@   loop 1 step imp(old(i)+1 < len(*procs) && old((*procs)[i+1].IsMethod), i == old(i)+1 && exitNum == old(exitNum))
+//@   loop 3 invariant old@loop1(i)+1 == len(*procs) || !(*procs)[old@loop1(i)+1].IsMethod
 //@   loop 1 decreases len(*procs) - i
 //@   loop 2 invariant old@loop1(i) <= i && i < len(*procs) && len(*procs) == len(old(*procs)) && exitNum < 1 && GlobalFIDs.list != nil
 //@   loop 2 invariant forall(k, old@loop1(i)+1, i+1, (*procs)[k].hasTerminatedV)
